@@ -128,7 +128,12 @@ class Worker(threading.Thread):
                 cmd.append("--thorough")
             if ctx.twice:
                 cmd.append("--twice")
-            p = subprocess.Popen(cmd, stdout=subprocess.PIPE, stderr=subprocess.PIPE, text=True, cwd=VERIF)
+            env = dict(os.environ)
+            with ctx.lock:
+                ctx.covn += 1
+                covfile = os.path.join(ctx.tmpdir, "cov-%s-%d.txt" % (variant, ctx.covn))
+            env["SIM_COV_DUMP"] = covfile
+            p = subprocess.Popen(cmd, stdout=subprocess.PIPE, stderr=subprocess.PIPE, text=True, cwd=VERIF, env=env)
             proc_from = idx
             errbuf = []
             t = threading.Thread(target=lambda: errbuf.append(p.stderr.read()), daemon=True)
@@ -229,6 +234,36 @@ def run_history(exe, prop, seed, start, idx, thorough, tmpdir):
     return keys
 
 
+def coverage_by_file(tmpdir, exes):
+    """Union of the covered control-flow edges (PCs dumped by every worker that exited normally), per library source file."""
+    out = {}
+    for v, exe in exes.items():
+        pcs = set()
+        for f in glob.glob(os.path.join(tmpdir, "cov-%s-*.txt" % v)):
+            try:
+                pcs.update(l.strip() for l in open(f) if l.startswith("0x"))
+            except OSError:
+                pass
+        if not pcs:
+            continue
+        per = {"_union": len(pcs)}
+        sym = shutil.which("llvm-symbolizer-14") or shutil.which("llvm-symbolizer")
+        if sym:
+            try:
+                p = subprocess.run([sym, "--obj=" + exe, "--output-style=GNU", "--no-inlines", "--functions=none"], input="\n".join(sorted(pcs)) + "\n",
+                                   stdout=subprocess.PIPE, stderr=subprocess.DEVNULL, text=True, timeout=120)
+                for line in p.stdout.splitlines():
+                    path = line.rsplit(":", 2)[0] if line.count(":") >= 2 else line.split(":")[0]
+                    m = re.search(r"/(SRC|CBLAS|FORTRAN)/([^/]+)$", path)
+                    if m:
+                        k = m.group(1) + "/" + m.group(2)
+                        per[k] = per.get(k, 0) + 1
+            except Exception:
+                pass
+        out[v] = per
+    return out
+
+
 def load_known():
     path = os.path.join(VERIF, "known_findings.json")
     if not os.path.exists(path):
@@ -323,6 +358,7 @@ def main():
     ctx.errors = []; ctx.cov = {}; ctx.per_variant = {}
     ctx.deadline = None
     ctx.hash_by_run = {}
+    ctx.covn = 0
 
     def on_result(variant, idx, js, proc_from=None):
         with ctx.lock:
@@ -529,6 +565,7 @@ def main():
             for k in sorted(ks):
                 if not match_known(known, prop, k):
                     reported.append((k, rp, det[k]))
+    file_cov = coverage_by_file(ctx.tmpdir, exes)
     wall = time.time() - t0
     # ---- evidence ----
     st = ctx.stats
@@ -550,7 +587,8 @@ def main():
             "faults_fired": fault_counts,
             "reach_probes": probes,
             "distinct_interleavings": int(st.get("distinct_interleavings_hint", 0)) if "distinct_interleavings_hint" in st else None,
-            "edge_coverage": {v: {"edges_hit_max_per_worker": h, "edges_total": t} for v, (h, t) in ctx.cov.items()},
+            "edge_coverage": {v: {"edges_hit_union": file_cov.get(v, {}).get("_union", h), "edges_total": t} for v, (h, t) in ctx.cov.items()},
+            "edges_hit_per_source_file": {v: {k: n for k, n in fc.items() if k != "_union"} for v, fc in file_cov.items()},
             "variants": ctx.per_variant,
             "components_real": REAL, "components_replaced": REPLACED,
             "components_stub": ["level-3 BLAS [sdcz]gemm_/[sdcz]trsm_ reference kernels (variant asan-vblas only)"] if any("vblas" in v for v in variants) else [],
